@@ -376,6 +376,15 @@ def sz_prod(xs, reg=None):
     return r
 
 
+class NpIntSize(Size):
+    """a size that arrives as a NumPy integer scalar (np.int64(r): an entry of a ranks array): isinstance(x, int) is False for it"""
+    __slots__ = ()
+
+    @staticmethod
+    def wrap(x):
+        return NpIntSize(dict(x.terms), x.reg)
+
+
 def sz_min(reg, a, b, origin=None):
     """min of two sizes: a concrete int when decidable, else a fresh atom with both upper bounds"""
     import math
